@@ -12,89 +12,136 @@
    C05_new_pat_total, C05_new_pat_getters_total, C05_read_pat_total, C05_is_pmt_total, C05_descriptor_decoders_total,
    C05_stream_max_bit_rate_total (C05Pat.v); C05_new_pmt_total .. C05_filter_pmt_packets_total (C05Pmt.v);
    C05_read_ebp_total_patched (C05_ebp.v); C05_new_scte35_total (C05Scte.v); C16_bufio_total, C17 (accumulator step),
-   C18_write_total, C18_read_from_total.
+   C18_write_total, C18_read_from_total; the printer theorems below (Proofs/PrintersTotal.v); process_I1 / Open_ok of C10.
 
-   What a group covers is written next to its definition in Exec/TotExec.v.  `_partial` marks the groups in which
-   some REAL calls have no model (printers, the state tracker): for those calls the C05 run rests on the real side
-   alone.  Calls whose model is a plain Gallina function without Res type are total by construction. *)
+   What a group covers is written next to its definition in Exec/TotExec.v.  `_partial` would mark a group in which
+   some REAL calls have no model; since the printers (Model/Printers.v: the index / slice / decoder operations of every
+   String() / Format() / fmt %v reachable from the groups, not their text), psi.CanBuildPMT and the state-tracker calls
+   are modelled, no group carries it.  What stays outside every model: the TEXT the printers produce, the clock value
+   behind EBPSuccessReadTime (the call is a field read), and package fmt itself (its rule "call Error()/String() when the
+   operand has one, else print the fields" is transcribed in Model/Printers.v; its recovery of a panicking String() is
+   deliberately not used).  Calls whose model is a plain Gallina function without Res type are total by construction. *)
 From Gots Require Import Base.Prelude Exec.ExecBase Exec.TotExec Proofs.TotExecTotal.
+From Gots Require Import Model.Pmt Model.PmtDesc Model.Pes Model.Ebp Model.Scte Model.ScteEnc Model.Printers Proofs.PrintersTotal.
+
+(* ---- the printers: "any object returned without error can be PRINTED without panicking" ----
+   A printer model is a `Res unit` with no error path, so totality is `= Ok tt`.  Each statement holds for every object
+   of the model type, hence for every object the decoder model returns (the hypothesis `decoder b = Ok x` is kept in the
+   statements about decoded objects to show the shape of the property; it is not needed). *)
+Theorem C05_print_pmt_descriptor : forall d, Printers.desc_format d = Ok tt /\ Printers.desc_string d = Ok tt.
+Proof. exact print_pmt_descriptor_stmt. Qed.
+Print Assumptions C05_print_pmt_descriptor.
+Theorem C05_print_pmt : forall b p, Pmt.new_pmt b = Ok p ->
+  Printers.pmt_string p = Ok tt /\ (forall e, In e (Pmt.streams p) -> Printers.es_string e = Ok tt) /\
+  (forall rm, Printers.pmt_string (Pmt.remove_elementary_streams p rm) = Ok tt).
+Proof. exact print_pmt_stmt. Qed.
+Print Assumptions C05_print_pmt.
+Theorem C05_print_read_pmt : forall b pid p, Pmt.read_pmt b pid = Ok p -> Printers.pmt_string p = Ok tt.
+Proof. exact print_read_pmt_stmt. Qed.
+Print Assumptions C05_print_read_pmt.
+Theorem C05_print_pes_header : forall b h, Pes.new_pes_header b = Ok h ->
+  Printers.pes_fmt_v h = Ok tt /\ Printers.pes_format h = Ok tt.
+Proof. exact print_pes_header_stmt. Qed.
+Print Assumptions C05_print_pes_header.
+Theorem C05_print_ebp : forall g b fe, Ebp.ReadEncoderBoundaryPoint g b = Ok fe -> Printers.ebp_sprint (snd fe) = Ok tt.
+Proof. exact print_ebp_stmt. Qed.
+Print Assumptions C05_print_ebp.
+(* String() of a signal, and of the signal as String() itself leaves it (it stores the re-encoded data) *)
+Theorem C05_print_scte35 : forall b s, Scte.new_scte35 b = Ok s ->
+  Printers.scte_string s = Ok tt /\ Printers.scte_string (Printers.scte_after_string s) = Ok tt.
+Proof. exact print_scte35_stmt. Qed.
+Print Assumptions C05_print_scte35.
+(* the slice expression String() ends with is in range because UpdateData ran first: the stored data ends with the CRC *)
+Theorem C05_print_scte35_crc_slice : forall s, 4 <= len (Scte.s_data (snd (ScteEnc.update_data s))).
+Proof. exact update_data_len. Qed.
+Print Assumptions C05_print_scte35_crc_slice.
+(* the index-using getters of a segmentation descriptor *)
+Theorem C05_seg_getters_total : forall d,
+  (exists o, Printers.stream_switch_signal_id d = Ok o) /\ Printers.seg_mid d = Ok tt /\ Printers.seg_components d = Ok tt.
+Proof. exact seg_getters_total_stmt. Qed.
+Print Assumptions C05_seg_getters_total.
+(* a fresh tracker fed with the descriptors of any signal, then Open() *)
+Theorem C05_tracker_calls_total : forall s, Printers.tracker_calls s = Ok tt.
+Proof. exact tracker_calls_total. Qed.
+Print Assumptions C05_tracker_calls_total.
+(* non-vacuity: the modelled operations can panic (short data, index past the end), and a stream-identifier descriptor
+   with one data byte is printed through the data[0] branch *)
+Example C05_print_ops_can_panic :
+  Printers.tail4 [1; 2; 3] = Panic /\ Printers.at_index [1; 2] 2 = Panic /\
+  Printers.desc_decode (PmtDesc.mk 82 [7]) = Ok tt /\ idx ([] : bytes) 0 = Panic.
+Proof. repeat split. Qed.
 
 (* ---- packet / adaptation field: every call of the group is modelled ---- *)
-Theorem C05Tot_pkt_read : never_bad (group g_pkt_read).
-Proof. exact (group_total _ pkt_read_ok). Qed.
+Theorem C05Tot_pkt_read : never_bad (group g_pkt_read e_pkt_read).
+Proof. exact (group_total _ _ pkt_read_ok). Qed.
 Print Assumptions C05Tot_pkt_read.
-Theorem C05Tot_pkt_setpayload : never_bad (group g_pkt_setpayload).
-Proof. exact (group_total _ pkt_setpayload_ok). Qed.
+Theorem C05Tot_pkt_setpayload : never_bad (group g_pkt_setpayload e_pkt_setpayload).
+Proof. exact (group_total _ _ pkt_setpayload_ok). Qed.
 Print Assumptions C05Tot_pkt_setpayload.
-Theorem C05Tot_pkt_setpayloadfn : never_bad (group g_pkt_setpayloadfn).
-Proof. exact (group_total _ pkt_setpayloadfn_ok). Qed.
+Theorem C05Tot_pkt_setpayloadfn : never_bad (group g_pkt_setpayloadfn e_none).
+Proof. exact (group_total _ _ pkt_setpayloadfn_ok). Qed.
 Print Assumptions C05Tot_pkt_setpayloadfn.
-Theorem C05Tot_pkt_setafc : never_bad (group g_pkt_setafc).
-Proof. exact (group_total _ pkt_setafc_ok). Qed.
+Theorem C05Tot_pkt_setafc : never_bad (group g_pkt_setafc e_pkt_setafc).
+Proof. exact (group_total _ _ pkt_setafc_ok). Qed.
 Print Assumptions C05Tot_pkt_setafc.
-Theorem C05Tot_af_getters : never_bad (group g_af_getters).
-Proof. exact (group_total _ af_getters_ok). Qed.
+Theorem C05Tot_af_getters : never_bad (group g_af_getters e_af_getters).
+Proof. exact (group_total _ _ af_getters_ok). Qed.
 Print Assumptions C05Tot_af_getters.
-Theorem C05Tot_af_setters : never_bad (group g_af_setters).
-Proof. exact (group_total _ af_setters_ok). Qed.
+Theorem C05Tot_af_setters : never_bad (group g_af_setters e_af_setters).
+Proof. exact (group_total _ _ af_setters_ok). Qed.
 Print Assumptions C05Tot_af_setters.
-Theorem C05Tot_affn : never_bad (group g_affn).
-Proof. exact (group_total _ affn_ok). Qed.
+Theorem C05Tot_affn : never_bad (group g_affn e_none).
+Proof. exact (group_total _ _ affn_ok). Qed.
 Print Assumptions C05Tot_affn.
 
 (* ---- psi ---- *)
-(* psi.CanBuildPMT(b, n) has no model of its own *)
-Theorem C05Tot_psi_accessors_partial : never_bad (group g_psi_accessors).
-Proof. exact (group_total _ psi_accessors_ok). Qed.
-Print Assumptions C05Tot_psi_accessors_partial.
-Theorem C05Tot_psi_pat : never_bad (group g_psi_pat).
-Proof. exact (group_total _ psi_pat_ok). Qed.
+Theorem C05Tot_psi_accessors : never_bad (group g_psi_accessors e_psi_accessors).
+Proof. exact (group_total _ _ psi_accessors_ok). Qed.
+Print Assumptions C05Tot_psi_accessors.
+Theorem C05Tot_psi_pat : never_bad (group g_psi_pat e_psi_pat).
+Proof. exact (group_total _ _ psi_pat_ok). Qed.
 Print Assumptions C05Tot_psi_pat.
-(* String() of the PMT and Format() of its descriptors are not modelled *)
-Theorem C05Tot_psi_pmt_partial : never_bad (group g_psi_pmt).
-Proof. exact (group_total _ psi_pmt_ok). Qed.
-Print Assumptions C05Tot_psi_pmt_partial.
-Theorem C05Tot_psi_done : never_bad (group g_psi_done).
-Proof. exact (group_total _ psi_done_ok). Qed.
+Theorem C05Tot_psi_pmt : never_bad (group g_psi_pmt e_psi_pmt).
+Proof. exact (group_total _ _ psi_pmt_ok). Qed.
+Print Assumptions C05Tot_psi_pmt.
+Theorem C05Tot_psi_done : never_bad (group g_psi_done e_psi_done).
+Proof. exact (group_total _ _ psi_done_ok). Qed.
 Print Assumptions C05Tot_psi_done.
-Theorem C05Tot_psi_crc : never_bad (group g_psi_crc).
-Proof. exact (group_total _ psi_crc_ok). Qed.
+Theorem C05Tot_psi_crc : never_bad (group g_psi_crc e_psi_crc).
+Proof. exact (group_total _ _ psi_crc_ok). Qed.
 Print Assumptions C05Tot_psi_crc.
-Theorem C05Tot_psi_filter : never_bad (group g_psi_filter).
-Proof. exact (group_total _ psi_filter_ok). Qed.
+Theorem C05Tot_psi_filter : never_bad (group g_psi_filter e_psi_filter).
+Proof. exact (group_total _ _ psi_filter_ok). Qed.
 Print Assumptions C05Tot_psi_filter.
-Theorem C05Tot_psi_readpat : never_bad (group g_psi_readpat).
-Proof. exact (group_total _ psi_readpat_ok). Qed.
+Theorem C05Tot_psi_readpat : never_bad (group g_psi_readpat e_psi_readpat).
+Proof. exact (group_total _ _ psi_readpat_ok). Qed.
 Print Assumptions C05Tot_psi_readpat.
-(* String() of the PMT is not modelled *)
-Theorem C05Tot_psi_readpmt_partial : never_bad (group g_psi_readpmt).
-Proof. exact (group_total _ psi_readpmt_ok). Qed.
-Print Assumptions C05Tot_psi_readpmt_partial.
+Theorem C05Tot_psi_readpmt : never_bad (group g_psi_readpmt e_psi_readpmt).
+Proof. exact (group_total _ _ psi_readpmt_ok). Qed.
+Print Assumptions C05Tot_psi_readpmt.
 
 (* ---- pes / ebp / scte35 ---- *)
-(* fmt %v and Format() of the header are not modelled *)
-Theorem C05Tot_pes_new_partial : never_bad (group g_pes_new).
-Proof. exact (group_total _ pes_new_ok). Qed.
-Print Assumptions C05Tot_pes_new_partial.
-(* fmt.Sprint of the EBP and EBPSuccessReadTime (a clock reading) are not modelled *)
-Theorem C05Tot_ebp_read_partial : never_bad (group g_ebp_read).
-Proof. exact (group_total _ ebp_read_ok). Qed.
-Print Assumptions C05Tot_ebp_read_partial.
-(* String() and the state-tracker calls at the end of the group are not modelled; the re-encoded bytes are
-   normalised with w8 before they are decoded again (see g_scte_new) *)
-Theorem C05Tot_scte_new_partial : never_bad (group g_scte_new).
-Proof. exact (group_total _ scte_new_ok). Qed.
-Print Assumptions C05Tot_scte_new_partial.
+Theorem C05Tot_pes_new : never_bad (group g_pes_new e_pes_new).
+Proof. exact (group_total _ _ pes_new_ok). Qed.
+Print Assumptions C05Tot_pes_new.
+(* EBPSuccessReadTime returns the stored clock reading: a field read; the value is not modelled *)
+Theorem C05Tot_ebp_read : never_bad (group g_ebp_read e_ebp_read).
+Proof. exact (group_total _ _ ebp_read_ok). Qed.
+Print Assumptions C05Tot_ebp_read.
+(* the re-encoded bytes are normalised with w8 before they are decoded again (see g_scte_new) *)
+Theorem C05Tot_scte_new : never_bad (group g_scte_new e_scte_new).
+Proof. exact (group_total _ _ scte_new_ok). Qed.
+Print Assumptions C05Tot_scte_new.
 
 (* ---- streams: over the model of bufio.Reader / the scripted reader and writer oracles ---- *)
-Theorem C05Tot_pkt_sync : never_bad (group g_pkt_sync).
-Proof. exact (group_total _ pkt_sync_ok). Qed.
+Theorem C05Tot_pkt_sync : never_bad (group g_pkt_sync e_pkt_sync).
+Proof. exact (group_total _ _ pkt_sync_ok). Qed.
 Print Assumptions C05Tot_pkt_sync.
-Theorem C05Tot_pkt_acc : never_bad (group g_pkt_acc).
-Proof. exact (group_total _ pkt_acc_ok). Qed.
+Theorem C05Tot_pkt_acc : never_bad (group g_pkt_acc e_none).
+Proof. exact (group_total _ _ pkt_acc_ok). Qed.
 Print Assumptions C05Tot_pkt_acc.
-Theorem C05Tot_pkt_writer : never_bad (group g_pkt_writer).
-Proof. exact (group_total _ pkt_writer_ok). Qed.
+Theorem C05Tot_pkt_writer : never_bad (group g_pkt_writer e_none).
+Proof. exact (group_total _ _ pkt_writer_ok). Qed.
 Print Assumptions C05Tot_pkt_writer.
 
 (* ---- the op table as the executor sees it ---- *)
@@ -109,10 +156,35 @@ Theorem C05Tot_ops_names : map fst TotExec.ops =
 Proof. exact ops_names. Qed.
 Print Assumptions C05Tot_ops_names.
 
+(* ---- the accept / reject bit (audit 1, item 5: without it the model side is the constant [0 1]) ----
+   On every byte string every group answers [0 1 e], where e is computed by the e_* function of the group from the Ok / Err
+   of the model of its primary decoder call; goexec reports the same bit of the real call, and bin/check compares them, so
+   the C05 run itself ties WHICH inputs each decoder accepts to the models the totality theorems are about. *)
+Theorem C05Tot_all_groups_answer : Forall (fun g => answers (snd (fst g)) (snd g)) TotExec.groups.
+Proof. exact all_groups_answer. Qed.
+Print Assumptions C05Tot_all_groups_answer.
+Theorem C05Tot_reject_bits : forall b n,
+  (e_psi_pat b n = true <-> exists e, Model.Pat.Pat.new_pat b = Err e) /\
+  (e_psi_pmt b n = true <-> exists e, Pmt.new_pmt b = Err e) /\
+  (e_psi_done b n = true <-> exists e, Pmt.done_func b = Err e) /\
+  (e_psi_crc b n = true <-> exists e, Pmt.extract_crc b = Err e) /\
+  (e_psi_readpmt b n = true <-> exists e, Pmt.read_pmt b (readpmt_pid b n) = Err e) /\
+  (e_pes_new b n = true <-> exists e, Pes.new_pes_header b = Err e) /\
+  (e_ebp_read b n = true <-> exists e, Ebp.ReadEncoderBoundaryPoint true b = Err e) /\
+  (e_scte_new b n = true <-> exists e, Scte.new_scte35 b = Err e) /\
+  (e_psi_accessors b n = true <-> exists e, Model.Psi.Psi.table_header_from_bytes b = Err e) /\
+  (e_pkt_read b n = true <-> exists e, Model.Packet.Packet.Payload_fn (pkt_of b) = Err e).
+Proof. exact reject_bits. Qed.
+Print Assumptions C05Tot_reject_bits.
+
 (* non-vacuity: the three classes are three different replies; a panicking group function IS answered [2 x];
-   a concrete case is answered [0 1] *)
+   concrete cases are answered [0 1 1] (rejected) and [0 1 0] (accepted) *)
 Theorem C05Tot_replies_distinct :
   reply COk <> reply CPanic /\ reply COk <> reply CDiverge /\ reply CPanic <> reply CDiverge /\
-  group (fun _ _ => CPanic) [VB [71]] = reply CPanic /\ group g_pkt_read [VB [71]; VI 15%Z] = reply COk.
+  group (fun _ _ => CPanic) e_none [VB [71]] = reply CPanic /\
+  group g_pkt_read e_pkt_read [VB [71]; VI 15%Z] = VL [VI 0%Z; VI 1%Z; VI 1%Z] /\
+  group g_pkt_read e_pkt_read [VB [71; 0; 0; 16]; VI 15%Z] = VL [VI 0%Z; VI 1%Z; VI 0%Z] /\
+  group g_pes_new e_pes_new [VB []] = VL [VI 0%Z; VI 1%Z; VI 1%Z] /\
+  group g_pes_new e_pes_new [VB [0; 0; 1; 224; 0; 0; 128; 0; 0]] = VL [VI 0%Z; VI 1%Z; VI 0%Z].
 Proof. exact replies_distinct. Qed.
 Print Assumptions C05Tot_replies_distinct.
